@@ -396,3 +396,59 @@ def opSEQ (args obs : List String) : Option DecOut := do
          branch := "seq." ++ ",".intercalate (acc.branches.eraseDups.take 6) }
 
 end FV.Driver
+
+namespace FV.Driver
+open FV.Tcp
+/-- `HSH key salt nonce chost shost user pw tamper => ping=… vping=… pong=… vpong=… held=… h=…` : the
+server-side helpers against the model's `pingMsg` / `validatePing` / `newPong` / `validatePong`, with
+`H` instantiated from the digests the harness computed with crypto/sha512 -/
+def opHSH (args obs : List String) : Option DecOut := do
+  let [k, sl, nc, ch, sh, us, pw, tamper] := args | none
+  let key ← parseHex k; let salt ← parseHex sl; let nonce ← parseHex nc
+  let chost ← parseHex ch; let shost ← parseHex sh; let user ← parseHex us; let pass ← parseHex pw
+  let tbl : List (Bytes × Bytes) := obs.filterMap fun t =>
+    if t.startsWith "h=" then
+      match (t.drop 2).toString.splitOn ":" with
+      | [a, b] => do let x ← parseHex a; let d ← parseHex b; pure (x, d)
+      | _ => none
+    else none
+  let H := tableH tbl
+  let fld (pfx : String) : Option (List String) := (field pfx obs).map (·.splitOn ",")
+  let [ph, ps, pd, pu, pp] ← fld "ping=" | none
+  let [vh, vs, vd, vres] ← fld "vping=" | none
+  let [qa, qh, qd] ← fld "pong=" | none
+  let [wh, wd, wres] ← fld "vpong=" | none
+  let [hk, hn, hs] ← fld "held=" | none
+  let key2 ← parseHex hk; let nonce2 ← parseHex hn; let salt2 ← parseHex hs
+  let cfg : Cfg := { sharedKey := some key, hostname := chost }
+  -- model
+  let mping := { pingMsg H cfg salt nonce with username := user, password := pass }
+  let goPing : Ping := { mtype := mping.mtype, hostname := (parseHex ph).getD [], salt := (parseHex ps).getD [],
+                         digest := (parseHex pd).getD [], username := (parseHex pu).getD [], password := (parseHex pp).getD [] }
+  let vping : Ping := { goPing with hostname := (parseHex vh).getD [], salt := (parseHex vs).getD [], digest := (parseHex vd).getD [] }
+  let mvping := validatePing H vping key2 nonce2
+  let mpong := newPong H true [0x72] shost key nonce goPing
+  let goPongDigest := (parseHex qd).getD []
+  let vpong : Pong := { mpong with hostname := (parseHex wh).getD [], digest := (parseHex wd).getD [] }
+  let mvpong := validatePong H vpong key2 nonce2 salt2
+  let corr :=
+    (if goPing == mping then [] else ["NewPing differs from the model"]) ++
+    (if (vres == "ok") == mvping then [] else [s!"ValidatePingDigest: model={mvping} go={vres}"]) ++
+    (if qa == "true" && (parseHex qh).getD [] == shost && goPongDigest == mpong.digest then [] else ["NewPong differs from the model"]) ++
+    (if (wres == "ok") == mvpong then [] else [s!"ValidatePongDigest: model={mvpong} go={wres}"])
+  -- oracle: the formulas of the statement, evaluated on the harness's digests
+  let dPing := H (salt ++ chost ++ nonce ++ key)
+  let dPong := H (salt ++ shost ++ nonce ++ key)
+  let same := tamper == "none"
+  let fails :=
+    (if goPing.digest == dPing && goPing.salt == salt && goPing.hostname == chost then [] else
+       ["C05 NewPing does not carry hostname, salt and hex(SHA512(salt+client_hostname+nonce+key))"]) ++
+    (if goPongDigest == dPong then [] else ["C05 NewPong does not carry hex(SHA512(salt+server_hostname+nonce+key))"]) ++
+    (if same && vres != "ok" then ["C05 ValidatePingDigest rejects the PING of a client holding the same key"] else []) ++
+    (if same && wres != "ok" then ["C05 ValidatePongDigest rejects the PONG of a server holding the same key"] else []) ++
+    (if !same && vres == "ok" && vping.digest != H (vping.salt ++ vping.hostname ++ nonce2 ++ key2) then
+       [s!"C05 ValidatePingDigest accepts a digest that is not the formula's ({tamper})"] else []) ++
+    (if !same && wres == "ok" && vpong.digest != H (salt2 ++ vpong.hostname ++ nonce2 ++ key2) then
+       [s!"C05 ValidatePongDigest accepts a digest that is not the formula's ({tamper})"] else [])
+  pure { corr := if corr.isEmpty then none else some (" || ".intercalate corr), fails := fails, branch := s!"hsh.{tamper}" }
+end FV.Driver
